@@ -244,7 +244,7 @@ impl Case {
 const THREAD_NAMES: [&[u8]; 12] = [b"\n", b"a", b"aaaaaaaaaaaaaaa", b"\xc3\xa9", b"\xff", b"a\xffb", b" \t", b"a b", b"\xf0\x9f\xa6\x80", b"\xed\xa0\x80", b"%s%n", b"\x01\x02\x7f"];
 const N_CONFIG: usize = 26;
 const N_DEV: usize = 10;
-const N_SHAPES: usize = 12;
+const N_SHAPES: usize = 14;
 
 /// A long-lived target that can host most families.
 pub struct Host {
@@ -294,6 +294,13 @@ pub(crate) fn linker_shape_image(h: &Host, shape: usize) -> (Vec<u8>, &'static s
                 8 => { for b in img[ST..].iter_mut() { *b = b'x'; } "l_name unterminated up to the end of readable memory" }
                 9 => { for i in 0..((0x2000 - DY) / 16) { set(&mut img, DY + 16 * i, 1); } "dynamic section without DT_NULL up to the end of readable memory" }
                 10 => { set(&mut img, RD + 8, h.hole - 16); "r_map pointing 16 bytes before unreadable memory" }
+                12 => {
+                    // PT_DYNAMIC's p_vaddr: the section starts 88 bytes (five and a half entries) before unreadable memory
+                    set(&mut img, PH + 56 + 16, 0x2000 - 88);
+                    for i in 0..11 { set(&mut img, 0x2000 - 88 + 8 * i, 1); }
+                    "dynamic section without DT_NULL that runs into unreadable memory in the middle of an entry"
+                }
+                13 => { set(&mut img, PH + 56 + 16, 0x2000 - 8); set(&mut img, 0x2000 - 8, 1); "dynamic section of half an entry before unreadable memory" }
                 _ => { set(&mut img, DY + 24, h.hole - 8); "r_debug 8 bytes before unreadable memory" }
             };
     (img, what)
@@ -735,7 +742,7 @@ pub fn run_real_cases(thorough: bool) -> Vec<(Case, Verdict)> {
 }
 
 pub fn run(ctx: &Ctx, rep: &mut Report) {
-    rep.rule = "families: crash-context rsp (27 values) x rip (24) x 3 option sets; live spin-thread rsp (27) x 2, and x 2..3 option sets at a list position >= 20 with the size limit engaged; direct auxv phnum(8) x phdr(8) x gate(4) x entry(4); synthetic linker data: every 8-byte field of 2 program headers, 4 dynamic entries, r_debug, 3 link_maps x 22 boundary values + 12 chain shapes; 10 kinds of /dev-backed mappings; 12 hostile thread names x 3 threads; 26 caller-configuration extremes; every libc call of the baseline trace x its alternatives (errno, 1-byte reads); mutated ELF images in a file mapping; 6 (7) hostile contents behind every file the dumper opens whose content the target or the host controls (command line, environment, saved auxv, release files, mapped files); mapping names lib.so.<up to 4(5) components over 13 letters> in-process. nontrivial = cases that deviate from the benign default".into();
+    rep.rule = "families: crash-context rsp (27 values) x rip (24) x 3 option sets; live spin-thread rsp (27) x 2, and x 2..3 option sets at a list position >= 20 with the size limit engaged; direct auxv phnum(8) x phdr(8) x gate(4) x entry(4); synthetic linker data: every 8-byte field of 2 program headers, 4 dynamic entries, r_debug, 3 link_maps x 22 boundary values + 14 chain shapes; 10 kinds of /dev-backed mappings; 12 hostile thread names x 3 threads; 26 caller-configuration extremes; every libc call of the baseline trace x its alternatives (errno, 1-byte reads); mutated ELF images in a file mapping; 6 (7) hostile contents behind every file the dumper opens whose content the target or the host controls (command line, environment, saved auxv, release files, mapped files); mapping names lib.so.<up to 4(5) components over 13 letters> in-process. nontrivial = cases that deviate from the benign default".into();
     rep.assume("'bounded time' is checked as 20 s per dump on targets with a few MiB of readable memory");
     let thorough = ctx.tier.is_thorough();
     if let Some(case) = &ctx.replay {
